@@ -299,6 +299,19 @@ pub fn key() -> impl Strategy<Value = String> {
             Just("OKK"), Just("ACKK"), Just("binaryy"), Just("list_OKK")
         ]
         .prop_map(str::to_string),
+        // families of long keys that differ in one character only (same length, same head and tail)
+        2 => (
+            prop_oneof![Just("MUSICBRAINZ_TRACKID"), Just("AlbumArtistSort"), Just("Last-Modified"), Just("playlistlength"), Just("abcdefghijklmnop"), Just("db_playtime")],
+            prop::option::of((any::<u16>(), prop::char::range('a', 'z'))),
+        )
+            .prop_map(|(base, m)| {
+                let mut cs: Vec<char> = base.chars().collect();
+                if let Some((at, c)) = m {
+                    let i = crate::core::pick_idx(at, cs.len());
+                    cs[i] = if cs[i].is_ascii_uppercase() { c.to_ascii_uppercase() } else { c };
+                }
+                cs.into_iter().collect::<String>()
+            }),
         2 => prop_oneof![Just("file"), Just("changed"), Just("Artist"), Just("Last-Modified"), Just("size"), Just("type")]
             .prop_map(str::to_string),
     ]
